@@ -8,6 +8,7 @@ recorder giving the real path of every file opened while a request is served
 the statement, and an ASGI lifespan automaton.
 """
 import asyncio
+import copy
 import itertools
 import os
 import shutil
@@ -102,6 +103,12 @@ def mappings(root):
         'ctype': {'/static': {'filename': pub,
                               'content_type': 'application/x-all'}},
         'root': {'/': pub + '/'},
+        # dict forms that leave the content type to the file's extension
+        'dict-dir': {'/static': {'filename': pub}},
+        'dict-dir-slash': {'/static/': {'filename': pub + '/'}},
+        'dict-file': {'/single': {'filename': os.path.join(root,
+                                                          'single.html')},
+                      '/static': {'filename': pub}},
     }
 
 
@@ -238,16 +245,22 @@ def run_asgi(path, mapping, endpoint, wrapped, spy):
 
 
 def check_path(rec, root, gateway, mname, mapping, endpoint, wrapped, path,
-               case):
+               case, live=None):
+    """`mapping` is the pristine configuration (the reference reads it);
+    `live` is the configuration object the gateway is given - the same one
+    for every request of a combination, as in a deployment, so that whatever
+    a request leaves behind in it is seen by the requests after it."""
     rec.evaluations += 1
     spy = Spy()
     del _opened[:]
     _watch[0] = root
     try:
         if gateway == 'wsgi':
-            res = run_wsgi(path, mapping, endpoint, wrapped, spy)
+            res = run_wsgi(path, mapping if live is None else live, endpoint,
+                           wrapped, spy)
         else:
-            res = run_asgi(path, mapping, endpoint, wrapped, spy)
+            res = run_asgi(path, mapping if live is None else live, endpoint,
+                           wrapped, spy)
     finally:
         _watch[0] = None
     opened = [os.path.realpath(p) for p in _opened]
@@ -506,9 +519,25 @@ def run_shard(spec):
                       '/static/sub/deep/c.json', '/static//a.txt',
                       '/static/./a.txt', '//static/a.txt', '/staticx/a.txt',
                       '/static/noext', '/static/app.js']
-            for p in paths:
+            live = copy.deepcopy(maps[mname])
+            rng.shuffle(paths)
+            for ip, p in enumerate(paths):
+                nv, lv = rec.nviolations, len(rec.violations)
                 out = check_path(rec, root, gw, mname, maps[mname], ep,
-                                 wrapped, p, case)
+                                 wrapped, p, case, live=live)
+                if rec.nviolations > nv:
+                    # does it depend on the requests served before it?
+                    alone = Rec()
+                    check_path(alone, root, gw, mname, maps[mname], ep,
+                               wrapped, p, case)
+                    if not alone.violations and len(rec.violations) > lv:
+                        v = rec.violations[-1]
+                        v['key'] = 'static-answer-depends-on-earlier-requests'
+                        v['msg'] = ('(the same request on a fresh gateway is '
+                                    'answered correctly; configuration now: '
+                                    '%r) ' % (live,))[:400] + v['msg']
+                        v['case'] = dict(v['case'], prior=paths[:ip])
+                    live = copy.deepcopy(maps[mname])
                 shape = '/'.join('N' if s not in ('', '.', '..', 'static',
                                                   'engine.io')
                                  else s for s in p.split('/')[1:4])
@@ -546,9 +575,14 @@ def replay(case):
     root = make_tree()
     try:
         maps = mappings(root)
+        live = copy.deepcopy(maps[case['mapping']])
+        for p in case.get('prior', []):
+            check_path(Rec(), root, case['gateway'], case['mapping'],
+                       maps[case['mapping']], case['endpoint'],
+                       case['wrapped'], p, case, live=live)
         check_path(rec, root, case['gateway'], case['mapping'],
                    maps[case['mapping']], case['endpoint'], case['wrapped'],
-                   case['path'], case)
+                   case['path'], case, live=live)
     finally:
         shutil.rmtree(root, ignore_errors=True)
     return rec.violations
